@@ -6,6 +6,8 @@ package query
 //verif:setup VerifC13LoadSetup
 //verif:harness VerifC13ParallelQueries mode=bv tier=quick split=8
 //verif:harness VerifC13FileLoad mode=bv tier=quick split=4
+//verif:setup VerifC13JoinSetup
+//verif:harness VerifC13Joins mode=bv tier=quick split=5
 
 import (
 	"github.com/mithrandie/csvq/lib/parser"
@@ -25,6 +27,12 @@ var verifC13Src = []string{
 	"select id, inc(k) from t where inc(id) > 0",          // user-defined scalar function on several workers
 	"select t.id, u.id from t inner join t as u on t.k = u.k",
 	"select id, (select count(*) from t as z where z.k = t.k) from t",
+	// a correlated subquery with more than 8 references to the outer record (its field-index cache
+	// changes representation while the inner scan's workers use it)
+	"select id, (select count(*) from t as z where z.k = t.k + t.id + t.k + t.id + t.k + t.id + t.k + t.id + t.k + t.id - t.k) from t",
+	// the same from a one-row outer table: the outer query is not split, so the inner scan is
+	"select id, (select count(*) from t as z where z.k = o.k) from o",
+	"select id, (select count(*) from t as z where z.k = o.k + o.id + o.k + o.id + o.k + o.id + o.k + o.id + o.k + o.id - o.k) from o",
 }
 var verifC13Queries []parser.SelectQuery
 var verifC13Decls []parser.Statement
@@ -51,15 +59,20 @@ func VerifC13ParallelQueries() {
 	tx := verifNewTx()
 	tx.Flags.Quiet = true
 	tx.Flags.CPU = verifBound(2, 3)
+	amp := verifAmplify() // 1 in the engine; the native race-confirmation run repeats the chosen rows
+	if amp > 1 {
+		tx.Flags.CPU = 4
+	}
 	proc := NewProcessor(tx)
 	scope := proc.ReferenceScope
 	_, err := proc.Execute(verifCtx(), verifC13Decls)
 	verifAssert("declarations", err == nil)
-	rows := make([][]value.Primary, n)
+	rows := make([][]value.Primary, n*amp)
 	for i := range rows {
-		rows[i] = []value.Primary{value.NewInteger(int64(i)), value.NewInteger(keys[i])}
+		rows[i] = []value.Primary{value.NewInteger(int64(i)), value.NewInteger(keys[i%n])}
 	}
 	verifTempTable(scope, "t", []string{"id", "k"}, rows)
+	verifTempTable(scope, "o", []string{"id", "k"}, rows[:1])
 	GetGoroutineManager().MinimumRequiredPerCore = 1
 	verifPreemptions(verifBound(0, 1))
 	verifRaces(true)
@@ -110,5 +123,62 @@ func VerifC13FileLoad() {
 	verifAssert("a well-formed file loads, a malformed one is refused", (err != nil) == (bad && which != 0 || bad && which == 0))
 	_ = proc.ReleaseResourcesWithErrors()
 	verifObserveBool("error", err != nil)
+	verifReach("end")
+}
+
+var verifC13JoinSrc = []string{
+	"select l.id, r.id from l inner join r on l.k = r.k",
+	"select l.id, r.id from l left join r on l.k = r.k",
+	"select l.id, r.id from l right join r on l.k = r.k",
+	"select l.id, r.id from l full join r on l.k = r.k",
+	"select l.id, r.id from l cross join r",
+}
+var verifC13JoinQueries []parser.SelectQuery
+
+func VerifC13JoinSetup() {
+	for _, s := range verifC13JoinSrc {
+		verifC13JoinQueries = append(verifC13JoinQueries, verifParse(s)[0].(parser.SelectQuery))
+	}
+}
+
+// Joins split over two workers (a join is split by its left table once the two tables have more
+// than 80 row pairs: 2 left rows x 81 right rows here), inner / left / right / full outer / cross,
+// with the race monitor on, under every order in which the workers run (thorough: plus one
+// preemption).  The left keys are chosen by the engine, so that the workers match the same right
+// rows, different ones, or none.
+func VerifC13Joins() {
+	qi := verifChoice("join", len(verifC13JoinSrc))
+	amp := verifAmplify()
+	tx := verifNewTx()
+	tx.Flags.Quiet = true
+	tx.Flags.CPU = 2
+	if amp > 1 {
+		tx.Flags.CPU = 4
+	}
+	scope := NewReferenceScope(tx)
+	var lk [2]int64
+	for i := range lk {
+		lk[i] = int64(verifChoice("lk", 3)) // 0 and 1 occur on the right, 2 does not
+	}
+	lrows := make([][]value.Primary, 2*amp)
+	for i := range lrows {
+		lrows[i] = []value.Primary{value.NewInteger(int64(i)), value.NewInteger(lk[i%2])}
+	}
+	rrows := make([][]value.Primary, 81)
+	for i := range rrows {
+		rrows[i] = []value.Primary{value.NewInteger(int64(i)), value.NewInteger(int64(i % 2))}
+	}
+	verifTempTable(scope, "l", []string{"id", "k"}, lrows)
+	verifTempTable(scope, "r", []string{"id", "k"}, rrows)
+	verifPreemptions(verifBound(0, 1))
+	verifRaces(true)
+	verifSchedules(true)
+	view, err := Select(verifCtx(), scope, verifC13JoinQueries[qi])
+	verifSchedules(false)
+	verifRaces(false)
+	verifAssert("the join runs", err == nil)
+	if err == nil {
+		verifObserve("rows", int64(view.RecordLen()))
+	}
 	verifReach("end")
 }
